@@ -308,13 +308,15 @@ pub fn udp_case(seed: u64, case: usize) -> String {
         };
         // garbage of several shapes, including a datagram larger than the receive buffer
         for _ in 0..rng.range(1, 6) {
-            let n = *rng.pick(&[0usize, 1, 3, 4, 100, 65_507]);
+            let n = *rng.pick(&[0usize, 1, 2, 3, 3, 4, 100, 65_507]);
             let mut g: Vec<u8> = (0..n).map(|_| rng.below(256) as u8).collect();
-            if rng.chance(1, 2) && n >= 4 {
-                g[0] = 0x53;
-                g[1] = 0xb0;
-                g[2] = 0;
-                g[3] = 1;
+            if rng.chance(1, 2) && n >= 2 {
+                // a valid header (magic number, version, message tag), possibly cut short
+                for (i, b) in [0x53u8, 0xb0, 0, 1].iter().enumerate() {
+                    if i < n {
+                        g[i] = *b;
+                    }
+                }
             }
             let _ = client.send_to(&g, srv_addr).await;
         }
@@ -376,7 +378,13 @@ pub async fn gen_round(trace: &mut String, rng: &mut Prng, counts: &mut std::col
     let id = mk_id("srv", 0, 8000);
     let self_addr = id.gossip_advertise_addr;
     let interval = Duration::from_secs(1);
-    let n_peers = rng.range(0, 5);
+    let mut n_peers = rng.range(0, 5);
+    // one case in three: the dead peers have been dead for more than half the grace period (they are
+    // quarantined — no longer mentioned in digests — but still dead peers until they are removed)
+    let long_dead = rng.chance(1, 3);
+    if long_dead {
+        n_peers = n_peers.max(3);
+    }
     let peer_addr = |i: u64| -> SocketAddr { ([10, 0, 1, i as u8], 9000 + i as u16).into() };
     // seeds: any subset of {self, peers, an address nobody uses}
     let mut seeds: Vec<String> = Vec::new();
@@ -397,7 +405,7 @@ pub async fn gen_round(trace: &mut String, rng: &mut Prng, counts: &mut std::col
         gossip_interval: interval,
         listen_addr: self_addr,
         seed_nodes: seeds.clone(),
-        failure_detector_config: FailureDetectorConfig::new(8.0, 1000, Duration::from_secs(10), Duration::from_secs(5), Duration::from_secs(1_000_000)),
+        failure_detector_config: FailureDetectorConfig::new(8.0, 1000, Duration::from_secs(10), Duration::from_secs(5), Duration::from_secs(if long_dead { 100 } else { 1_000_000 })),
         marked_for_deletion_grace_period: Duration::from_secs(1_000_000),
         catchup_callback: None,
         extra_liveness_predicate: None,
@@ -406,7 +414,13 @@ pub async fn gen_round(trace: &mut String, rng: &mut Prng, counts: &mut std::col
     *shared.chitchat.lock().unwrap() = Some(handle.chitchat());
     settle().await;
     // which peers keep heartbeating (live) and which are heard once only (dead after evaluation)
-    let keeps: Vec<bool> = (0..n_peers).map(|_| rng.chance(1, 2)).collect();
+    let mut keeps: Vec<bool> = (0..n_peers).map(|_| rng.chance(1, 2)).collect();
+    if long_dead && rng.chance(3, 4) {
+        // one live peer, outnumbered by the long-dead ones
+        for (i, k) in keeps.iter_mut().enumerate() {
+            *k = i == 0;
+        }
+    }
     let wid_of_peer = |i: u64| WId { name: format!("p{i}").into_bytes(), generation: 0, ipv: 4, ip: 0x0a000100 + i as u128, port: 9000 + i as u16 };
     for round in 1..=3u64 {
         let entries: Vec<(WId, u64, u64, u64)> = (0..n_peers)
@@ -424,6 +438,24 @@ pub async fn gen_round(trace: &mut String, rng: &mut Prng, counts: &mut std::col
         }
         tokio::time::advance(interval).await;
         settle().await;
+    }
+    if long_dead {
+        for round in 4..=64u64 {
+            let entries: Vec<(WId, u64, u64, u64)> =
+                (0..n_peers).filter(|i| keeps[*i as usize]).map(|i| (wid_of_peer(i), round, 0, 0)).collect();
+            if !entries.is_empty() {
+                let mut bytes = Vec::new();
+                put_header(&mut bytes, 0);
+                put_digest(&mut bytes, &entries);
+                crate::util::put_str(&mut bytes, b"c");
+                shared.events.lock().unwrap().push_back(Ev::Msg(peer_addr(0), bytes));
+                shared.notify.notify_one();
+                settle().await;
+            }
+            tokio::time::advance(interval).await;
+            settle().await;
+        }
+        *counts.entry("round_long_dead".to_string()).or_insert(0) += 1;
     }
     // the pools, as the property defines them, from the public API
     let (peers, live, dead): (Vec<SocketAddr>, Vec<SocketAddr>, Vec<SocketAddr>) = {
